@@ -146,9 +146,13 @@ def evaluate__parenthesized_expression(self: XPathToken, context: ta.ContextType
 
         raise self.error('XPTY0004', f'an XPath function expected, not {type(value)!r}')
 
-    if isinstance(value, (XPathMap, XPathArray)) or \
-            not isinstance(value, XPathFunction) or self[0].span[0] > self.span[0]:
+    if self[0].span[0] > self.span[0]:
+        return value  # a parenthesized expression
+    elif isinstance(value, (XPathMap, XPathArray)):
         return value
+    elif not isinstance(value, XPathFunction):
+        # a dynamic function call with no arguments of something that is not a function
+        raise self.error('XPTY0004', f'an XPath function expected, not {type(value)!r}')
     else:
         return value(context=context)
 
